@@ -39,6 +39,7 @@ def run(eng, rep) -> None:
     rep.rule("R04.4", "struct fields are laid out in ascending field_id")
     rep.rule("R04.5", "options of a leaf are looked up under exactly the emitted field's name; the lookup is an exact-name match; the shared default is never mutated")
     rep.rule("R04.6", "attribute stores on non-self objects target only copies")
+    rep.rule("R04.8", "a loop that descends a nested type accumulates the size of the level it is at, not of the type it started from")
     rep.rule("R04.7", "hierarchical names: the name prefix received by a layout step is handed on (extended or unchanged) to every layout step it calls, and the leaf name starts with it")
     rep.assume("propagation of an array field's options to its unrolled elements is not decided; uniqueness of names is decided only as prefix threading (R04.7), given unique field names per struct (C09)")
     enc = prog.cls(ENCODER)
@@ -274,6 +275,16 @@ def run(eng, rep) -> None:
                 rep.violation("R04.5", f.file, f.qual, norm(st, 60), "a leaf's options dict is mutated: with the shared default `extended_data=dict()` (and the signal block's own dict) this leaks options to other leaves")
     rep.ok("R04.5", "src/fcp/encoding.py", VALUE, "stores to *.extended_data anywhere: %d" % n_mut, "options dicts are read-only")
     r047(eng, rep, enc, reach, live, arg_of)
+    # ---- R04.8 ----------------------------------------------------------------------
+    from ..dataflow import head_reads_in_descent
+    n_desc = 0
+    for f_ in prog.functions.values():
+        if f_.module.name not in ("fcp.encoding", "fcp.specs.type"):
+            continue
+        n_desc += 1
+        for w_, st_, txt_ in head_reads_in_descent(f_.node):
+            rep.violation("R04.8", f_.file, f_.qual, txt_[:70], "the loop walks down the nested type but multiplies/adds the size of the type it started from at every level: for nested arrays of different sizes the computed length is wrong, so the leaves that follow are misplaced")
+    rep.ok("R04.8", "-", "-", "descent loops over nested types", "%d functions scanned" % n_desc)
     # ---- R04.6 ----------------------------------------------------------------------
     for f in reach:
         defs = Defs(f.node)
